@@ -127,7 +127,7 @@ CHECKS = {
   text="Coq theorems (Props/C08.v) about the model of handle_downlink_macs, for all states and command bytes: RXParamSetupReq: answer 0b111 iff frequency in band, RX1 offset within "
        "the region's limit and RX2 data rate defined (15 = keep), then exactly those three fields change, otherwise the configuration is unchanged; RXTimingSetupReq sets exactly the "
        "RX1 delay (0,1 -> 1 s); DlChannelReq / NewChannelReq: any NAK bit => channel plan identical, full ACK => exactly the commanded channel change; LinkADRReq blocks: one identical "
-       "answer per request, 0b111 => data rate, power and mask applied exactly (15 = keep), otherwise configuration and plan untouched, an RFU ChMaskCntl never ACKed; answers are whole "
+       "answer per request, 0b111 => data rate, power and mask applied exactly (15 = keep), otherwise configuration and plan untouched, an RFU ChMaskCntl never ACKed (C08_dynamic_plan_rejects_rfu_chmaskcntl: in the 16-channel plans every value but 0 and 6, alone or as the last request of a block; C08_rfu_chmaskcntl_poisons_the_block / C08_block_poison_persists / C08_poisoned_block_is_rejected: anywhere inside a block it makes the whole block rejected); answers are whole "
        "commands within 15 bytes, queued in request order, and once one is dropped all later ones are dropped; sticky answers = exactly the whole DlChannelAns/RXParamSetupAns/"
        "RXTimingSetupAns; C08_accepted_linkadr_governs_next_uplink: once an accepted LinkADRReq has set the mask, the next data uplink is chosen through that mask at the configured data "
        "rate from EVERY region state (a fixed plan in the middle of a join-sub-band bias included). Tied to the code by model/implementation histories enumerating the field values of the "
